@@ -1580,6 +1580,20 @@ class Walker:
                 a = Arr("zeros#%d" % next(self._ids), ety=dt, ndim=len(shape.items), origin=d.split(".")[-1])
                 return a
             return Opaque((d,), e)
+        if isinstance(fn, ast.Attribute) and fn.attr == "tobytes" and not e.args and not e.keywords:
+            v = self.ev(fn.value, st)
+            if isinstance(v, ArrSlice):
+                last = v.idx[-1] if v.idx else None
+                nums = v.index_nums()
+                if isinstance(last, tuple) and last[0] == "slice" and last[1] is None and isinstance(last[2], Lin) and len(v.idx) == v.arr.ndim:
+                    # X[r, c, :n].tobytes()  ==  bytes(X[r, c, :n])
+                    root = ("arrbytes", v.arr.name, tuple(i.lin.key() for i in nums))
+                    return Bytes(root, Lin.const(0), last[2], last[2])
+                if len(nums) == len(v.idx) == v.arr.ndim - 1:
+                    # X[r, c].tobytes(): the whole slot; its length is the array's last dimension
+                    root = ("arrbytes", v.arr.name, tuple(i.lin.key() for i in nums))
+                    ln = self.named(("rowlen", v.arr.name), (0, LEN_MAX))
+                    return Bytes(root, Lin.const(0), None, Lin.term(ln))
         if d == "bytes" and len(e.args) == 1:
             v = self.ev(e.args[0], st)
             if isinstance(v, ArrSlice):
